@@ -18,6 +18,9 @@ import (
 //
 // where a failing branch contributes nothing, and P++Q fails exactly when the
 // concatenation is empty (in particular when P fails).
+// 12% of the documents hold the SAME map / slice value at two or more places (ShareSubtrees,
+// b8_helpers.go: a DAG, as a value the tree that is printed); their paths always contain `..`
+// and the full result is put to jpv-spec on the document as a value as well.
 // Two instances are checked with their own right-hand sides:
 //   - `..X rest`   = `$`+X+rest applied to every container below each value the prefix
 //     selects, in pre-order (containers enumerated here in Go);
@@ -285,9 +288,10 @@ func c08DescStep(r *Rng, o GenOpts, root, node interface{}, ok bool, form int) (
 }
 
 type c08Case struct {
-	doc   interface{}
-	steps []*Step
-	fns   []Fn
+	doc    interface{}
+	steps  []*Step
+	fns    []Fn
+	shared []string // ShareSubtrees: which containers are one Go object at two places
 }
 
 func c08Gen(r *Rng) c08Case {
@@ -305,6 +309,12 @@ func c08Gen(r *Rng) c08Case {
 		doc = GenDoc(r, oP, 0)
 	}
 	var c c08Case
+	// shared sub-containers (12% of the cases): the same map / slice VALUE at two or more places (a DAG
+	// assembled in Go; as a value still a tree). The path then always has a `..`, in half of these
+	// cases as the first step, i.e. evaluated above all occurrences.
+	if r.Chance(12) {
+		doc, c.shared = ShareSubtrees(doc, r)
+	}
 	c.doc = doc
 	node, ok := doc, true
 	nP := r.Weighted([]int{10, 50, 30, 10})
@@ -312,6 +322,12 @@ func c08Gen(r *Rng) c08Case {
 	forcedAt := -1
 	if r.Chance(45) {
 		forcedAt = r.Intn(nP + nQ)
+	}
+	if len(c.shared) > 0 {
+		forcedAt = r.Intn(nP + nQ)
+		if r.Chance(50) {
+			forcedAt = 0
+		}
 	}
 	for i := 0; i < nP+nQ; i++ {
 		o := oP
@@ -478,6 +494,11 @@ func (c08) Exec(seed int64, i int, tier string) Record {
 		}
 	}
 	rec := Record{Text: fullText, Doc: JSONText(c.doc), Info: map[string]interface{}{}}
+	fullSexp := fullPath.Sexp() // before the sub-paths are rendered (rendering records the step texts)
+	if len(c.shared) > 0 {
+		rec.Info["shared_containers"] = c.shared
+		rec.Info["shared_note"] = "the document is assembled in Go so that these places hold the SAME map / slice value (a DAG, no cycle; places as of the moment each was shared); as a value it is the tree printed in doc"
+	}
 	if !full.OK && (full.ErrKind == "syntax" || full.ErrKind == "argument" || full.ErrKind == "notfound" || full.ErrKind == "notsupported") {
 		rec.Viol = "generated path was rejected by Parse: " + full.Msg
 		rec.Class = "parse-reject"
@@ -676,6 +697,23 @@ func (c08) Exec(seed int64, i int, tier string) Record {
 	}
 	if splits == 0 {
 		tags["split:none"] = true
+	}
+	if len(c.shared) > 0 {
+		tags["doc:shared-container"] = true
+		if full.OK {
+			tags["doc:shared-container, full ok"] = true
+		}
+		// the specification sees the value (the unfolded tree)
+		exp := "(q err)"
+		if full.OK {
+			exp = "(q ok"
+			for _, v := range full.Vals {
+				exp += " " + ValSexp(v)
+			}
+			exp += ")"
+		}
+		rec.Q = []LeanQ{{Driver: "spec", Line: "(q run " + fullSexp + " " + ValSexp(c.doc) + ")", Expect: exp,
+			What: "result on a document with shared sub-containers vs Spec.run on the document as a value"}}
 	}
 	for t := range tags {
 		rec.Tags = append(rec.Tags, t)
